@@ -96,6 +96,29 @@ def multiget_body(kind, hrefs, props=None):
     return _ser(root)
 
 
+def partial_data_body(kind, hrefs, mode):
+    """calendar-multiget / calendar-query asking for a *partial* calendar-data
+    (RFC 4791 9.6): selected components/properties, or expanded recurrences."""
+    root = ET.Element("{%s}calendar-%s" % (CAL, kind))
+    p = ET.SubElement(root, "{DAV:}prop")
+    ET.SubElement(p, P_GETETAG)
+    cd = ET.SubElement(p, P_CALDATA)
+    if mode == "expand":
+        ET.SubElement(cd, "{%s}expand" % CAL, start="20200101T000000Z", end="20200801T000000Z")
+    else:
+        vc = ET.SubElement(cd, "{%s}comp" % CAL, name="VCALENDAR")
+        ET.SubElement(vc, "{%s}prop" % CAL, name="VERSION")
+        ev = ET.SubElement(vc, "{%s}comp" % CAL, name="VEVENT")
+        ET.SubElement(ev, "{%s}prop" % CAL, name="SUMMARY")
+        ET.SubElement(ev, "{%s}prop" % CAL, name="UID")
+    if kind == "multiget":
+        for h in hrefs:
+            ET.SubElement(root, "{DAV:}href").text = h
+    else:
+        root.append(cal_filter({"comp": "VEVENT"}))
+    return _ser(root)
+
+
 def sync_body(token, props=(P_GETETAG,), level="1"):
     root = ET.Element("{DAV:}sync-collection")
     ET.SubElement(root, "{DAV:}sync-token").text = token
